@@ -65,6 +65,9 @@ class Walker:
 
     def cmp_atom(self, sym, a, b):
         ra, rb = self.role(a), self.role(b)
+        # the log-level tests of the logging macros never influence a decision: one shared boolean instead of a pair per site
+        if "log::" in ra or "log::" in rb or "Level::" in ra or "Level::" in rb:
+            return ("opaque", "log_enabled")
         # canonical orientation: lexicographic on role names
         if ra > rb:
             ra, rb, sym = rb, ra, FLIP[sym]
@@ -244,7 +247,7 @@ def rel_of(asg, a, b):
     return None
 
 
-def table(paths, outcome_value, fix_disc=None, max_rows=200000):
+def table(paths, outcome_value, fix_disc=None, max_rows=1500000):
     """Enumerate assignments; for each, find the feasible path(s) and its outcome.
     outcome_value(path, asg) -> hashable outcome.  Returns list of (asg, outcome set)."""
     acc = {"pairs": set(), "opaque": set(), "disc": {}}
